@@ -559,6 +559,7 @@ func showInJS(env *env, out io.Writer, value any) error {
 			if field := t.Field(i); field.PkgPath == "" {
 				name := field.Name
 				value := v.Field(i)
+				quoted := false
 				if tag := field.Tag.Get("json"); tag != "" {
 					if tag == "-" {
 						continue
@@ -570,6 +571,7 @@ func showInJS(env *env, out io.Writer, value any) error {
 					if tagName != "" {
 						name = tagName
 					}
+					quoted = isQuotedField(tag, field.Type)
 				}
 				if first {
 					_, err = w.WriteString(`"`)
@@ -582,7 +584,9 @@ func showInJS(env *env, out io.Writer, value any) error {
 				if err == nil {
 					_, err = w.WriteString(`":`)
 				}
-				if err == nil {
+				if err == nil && quoted {
+					err = showQuoted(env, w, value.Interface(), showInJS)
+				} else if err == nil {
 					err = showInJS(env, w, value.Interface())
 				}
 				first = false
@@ -761,6 +765,7 @@ func showInJSON(env *env, out io.Writer, value any) error {
 			if field := t.Field(i); field.PkgPath == "" {
 				name := field.Name
 				value := v.Field(i)
+				quoted := false
 				if tag := field.Tag.Get("json"); tag != "" {
 					if tag == "-" {
 						continue
@@ -772,6 +777,7 @@ func showInJSON(env *env, out io.Writer, value any) error {
 					if tagName != "" {
 						name = tagName
 					}
+					quoted = isQuotedField(tag, field.Type)
 				}
 				if first {
 					_, err = w.WriteString(`"`)
@@ -784,7 +790,9 @@ func showInJSON(env *env, out io.Writer, value any) error {
 				if err == nil {
 					_, err = w.WriteString(`":`)
 				}
-				if err == nil {
+				if err == nil && quoted {
+					err = showQuoted(env, w, value.Interface(), showInJSON)
+				} else if err == nil {
 					err = showInJSON(env, w, value.Interface())
 				}
 				first = false
@@ -990,6 +998,56 @@ func parseTagValue(tag string) (name string, omitempty bool) {
 		tag = tag[i+1:]
 	}
 	return name, false
+}
+
+// isQuotedField reports whether a struct field with type t and with the
+// 'json' tag value tag has to be shown quoted in JS and JSON, that is if the
+// options of the tag contain 'string' and t is a string, boolean or numeric
+// type, or a pointer to one of these types.
+func isQuotedField(tag string, t reflect.Type) bool {
+	_, options, _ := strings.Cut(tag, ",")
+	for options != "" {
+		var option string
+		option, options, _ = strings.Cut(options, ",")
+		if option != "string" {
+			continue
+		}
+		if t.Kind() == reflect.Pointer {
+			t = t.Elem()
+		}
+		switch t.Kind() {
+		case reflect.Bool, reflect.String,
+			reflect.Int, reflect.Int8, reflect.Int16, reflect.Int32, reflect.Int64,
+			reflect.Uint, reflect.Uint8, reflect.Uint16, reflect.Uint32, reflect.Uint64, reflect.Uintptr,
+			reflect.Float32, reflect.Float64:
+			return true
+		}
+		return false
+	}
+	return false
+}
+
+// showQuoted shows value, as show shows it, in a JS and JSON string. A null
+// value is not quoted.
+func showQuoted(env *env, w strWriter, value any, show func(*env, io.Writer, any) error) error {
+	var b strings.Builder
+	err := show(env, &b, value)
+	if err != nil {
+		return err
+	}
+	s := b.String()
+	if s == "null" {
+		_, err = w.WriteString(s)
+		return err
+	}
+	_, err = w.WriteString(`"`)
+	if err == nil {
+		err = jsStringEscape(w, s)
+	}
+	if err == nil {
+		_, err = w.WriteString(`"`)
+	}
+	return err
 }
 
 // isEmptyValue reports whether v is an empty value for JS and JSON.
